@@ -178,6 +178,19 @@ func checkSeatLookups(c *Ctx, rule string) {
 			if !recognised || !sc.OK {
 				continue // loops with other conditions (rotation, counting) have their own rules
 			}
+			// a look-up selects seats (collects, counts, records or leaves the loop with one); a loop that only
+			// rewrites a field of the seats it visits (the rotation's waiting-flag refresh) is not one
+			anySel, anyExit := false, false
+			for _, bp := range sc.Body {
+				if bp.Exit {
+					anyExit = true
+				} else if selected(bp) {
+					anySel = true
+				}
+			}
+			if !anySel && !anyExit {
+				continue
+			}
 			var want func(a map[string]bool) bool
 			desc := ""
 			switch {
